@@ -95,7 +95,7 @@ def validate(V, traces, label, witness):
 def case_jobs(tier, rng):
     from checks import c02, c08
     jobs = []
-    for c in c02.precedence_cases(tier, rng) + c02.scoping_cases(tier, rng):
+    for c in c02.precedence_cases(tier, rng) + c02.scoping_cases(tier, rng) + c02.sibling_cases(tier, rng):
         jobs.append((c, []))
     progs = c08.cases_for('quick', rng)
     if tier == 'quick':
